@@ -378,9 +378,10 @@ fn resolve_method_signature_recursive(
       }
       let mut renaming = HashMap::new();
       for (i, tparam) in info.type_parameters.iter().enumerate() {
-        if names_in_type_arguments.contains(&tparam.name) && i < 10 {
+        if names_in_type_arguments.contains(&tparam.name) {
           // `$` cannot be part of a name in the source.
-          let fresh = PStr::two_letter_literal(&[b'$', b'0' + (i as u8)]);
+          let fresh =
+            PStr::three_letter_literal(&[b'$', b'0' + ((i / 64) as u8), b'0' + ((i % 64) as u8)]);
           renaming.insert(tparam.name, (fresh, Arc::new(Type::Generic(Reason::dummy(), fresh))));
         }
       }
